@@ -90,12 +90,18 @@ pub fn run_any(c: &Case) -> Option<RunOut> {
 }
 
 pub fn run_any_inner(c: &Case) -> Option<RunOut> {
+    db::IDENT2_MISMATCH.store(0, std::sync::atomic::Ordering::SeqCst);
     let r = std::panic::catch_unwind(std::panic::AssertUnwindSafe(|| match c.engine.as_str() {
         #[cfg(feature = "e3")]
         "e3" => conc::run_conc(c),
         _ => e1::run_case(c),
     }));
-    r.ok()
+    let mut o = r.ok()?;
+    let im = db::IDENT2_MISMATCH.swap(0, std::sync::atomic::Ordering::SeqCst);
+    if im > 0 {
+        o.viol("struct_identity_fields_mixed", 0, format!("{im} read(s) of a tracked struct returned identity fields that never belonged to one struct (ident2 != f(ident))"));
+    }
+    Some(o)
 }
 
 fn main() {
